@@ -55,20 +55,27 @@ EmitClass(c) == IF c \in TLCGet(10) THEN TRUE ELSE TLCSet(10, TLCGet(10) \cup {c
 EmitCex == IF TLCGet(11) >= CaseCap THEN TRUE ELSE TLCSet(11, TLCGet(11) + 1) /\ PrintT(<<"CASE", CaseJson>>)
 SigReg(s) == CASE s = "ldap-substring-split" -> 3 [] s = "scim-order-string" -> 4 [] s = "andnot-isolated" -> 5
                [] s = "andnot-partial" -> 6 [] OTHER -> 7
+(* Current code = repaired filter layer (commit b91e119).  Divergences from the standards must fall in the two
+   TRANSLATION classes; the pre-repair code is evaluated too: where only it diverges, the state is a regression
+   witness of the C01 classes (census registers 5, 6). *)
 MCInv ==
   LET idx   == Layout(lay)
-      c     == Cfg(0, FALSE, PresAttrs(idx))
+      c     == Cfg(0, TRUE, PresAttrs(idx))
+      co    == Cfg(0, FALSE, PresAttrs(idx))
       wr    == IF Kind = "ldap" THEN LdapWrapped(pf) ELSE ScimWrapped(pf)
       truth == IF Kind = "ldap" THEN LdapTruth(pf, Db) ELSE ScimTruth(pf, Db)
       ans   == L2Answer(wr, Db, idx, c, Kind = "ldap")
-      sig   == ProtoSig(Kind, pf, wr, Db, idx, c)
+      anso  == L2Answer(wr, Db, idx, co, Kind = "ldap")
+      sig   == ProtoSig(Kind, pf, wr, Db, idx, co)
+      trans == sig \in {"ldap-substring-split", "scim-order-string"}
   IN /\ Count(1)
      /\ (IF ans.rej THEN Count(2)
          ELSE /\ (ans.s = truth \/ Count(SigReg(sig)))
-              /\ (ans.s = truth \/ sig # "none" \/ Fail("UNEXPLAINED"))
+              /\ (ans.s = truth \/ trans \/ Fail("UNEXPLAINED"))
               /\ (ans.s = truth \/ EmitCex))
+     /\ ((~anso.rej /\ anso.s # truth /\ ~trans) => (Count(SigReg(sig)) /\ EmitCex /\ (sig # "none" \/ Fail("OLDUNEXPLAINED"))))
      /\ EmitClass(<<IF ans.rej THEN "rej" ELSE IF ans.s = truth THEN "ok" ELSE "div", sig, pf.k>>)
 ASSUME (\A r \in 1..9 : TLCSet(r, 0)) /\ TLCSet(10, {}) /\ TLCSet(11, 0)
-\* CENSUS: states, rejected, diverging by class (substring split, scim order on strings, andnot isolated, andnot partial, unexplained)
+\* CENSUS: states, rejected, diverging by class (substring split, scim order on strings; pre-repair code only: andnot isolated, andnot partial), unexplained
 Census == PrintT(<<"CENSUS", TLCGet(1), TLCGet(2), TLCGet(3), TLCGet(4), TLCGet(5), TLCGet(6), TLCGet(7)>>)
 =============================================================================
